@@ -243,6 +243,24 @@ def main(tier, replay=None):
     for o in t3:
         o['id'] = len(obs) + 1
         obs.append(o)
+    # a date against the serial the library itself gives for it: every day of January-March 1900 (where the serials carry the
+    # spreadsheet's 29 February 1900), days spread over the calendar, and times of day that are exact binary fractions
+    days = [_dt.datetime(1900, 1, 1) + _dt.timedelta(days=k) for k in range(0, 70)]
+    days += [_dt.datetime(rng.randint(1900, 9998), rng.randint(1, 12), rng.randint(1, 28)) for _ in range(150 if tier == 'quick' else 5000)]
+    days += [d + _dt.timedelta(hours=rng.choice([6, 12, 18, 3])) for d in days[::3]]
+    for d in days:
+        tp.set_variable('vd', d)
+        q = tp.parse('N(vd)')
+        sv = q['result']
+        if q['error'] is not None or isinstance(sv, bool) or not isinstance(sv, (int, float)):
+            continue
+        tp.set_variable('vs', sv)
+        r = {}
+        for name, f in (('eq', 'vd=vs'), ('lt', 'vd<vs'), ('gt', 'vd>vs'), ('below', 'vs-0.5<vd'), ('above', 'vd<vs+0.5')):
+            q = tp.parse(f)
+            r[name] = enc(q['result']) if q['error'] is None else {'t': 'err', 'c': q['error']}
+        obs.append({'id': len(obs) + 1, 'kind': 'selfserial', 'in': {'op': 'selfserial', 'a': d.isoformat(), 'b': repr(sv)}, 'r': r,
+                    'out': {'res': {'t': 'blank'}, 'err': ''}, 'mode': 'var', 'formula': 'vd=N(vd)'})
     for o in laws_obs(lib, lp):
         o['id'] = len(obs) + 1
         obs.append(o)
